@@ -21,6 +21,7 @@ Eval(a, env) ==
   CASE a.t = "num"  -> Num(100 * a.n)
     [] a.t = "cond" -> Bool(env[a.i])
     [] a.t = "fail" -> Err("DIV0")
+    [] a.t = "failref" -> Err("DIV0")               \* a bare reference to a cell whose own formula fails
     [] a.t = "na"   -> Err("NA")
     [] a.t = "blank" -> [k |-> "blank"]             \* a reference to a blank cell: a value, not an error
     [] a.t = "text" -> [k |-> "text"]               \* a text value (which text is irrelevant here)
